@@ -86,6 +86,16 @@ theorem hash_reservation_bounded (announced : Nat) (rest : Bytes) :
     Gen.hashMapReserve announced rest.length ≤ rest.length := by
   unfold Gen.hashMapReserve; omega
 
+/-- … and the same for sequences (elements pre-allocated) and strings (bytes allocated): never more than the unread bytes,
+    whatever length the input announces (D-11d: `02 00 00 40` used to make both reserve 2^28 elements / bytes). -/
+theorem vec_reservation_bounded (announced : Nat) (rest : Bytes) :
+    Gen.vecReserve announced rest.length ≤ rest.length := by
+  unfold Gen.vecReserve; omega
+
+theorem string_reservation_bounded (announced : Nat) (rest : Bytes) :
+    Gen.stringReserve announced rest.length ≤ rest.length := by
+  unfold Gen.stringReserve; split <;> omega
+
 /-- `skip_tagged_fields` needs no more fuel than the model gives it (the loop terminates). -/
 theorem skip_fuel_sufficient (fuel : Nat) (bs : Bytes) (h : bs.length < fuel) :
     skipTagged fuel bs = skipTaggedFields bs :=
@@ -112,5 +122,7 @@ end Slicec.C11
 #print axioms Slicec.C11.seq_count_bounded
 #print axioms Slicec.C11.loop_calls_bounded
 #print axioms Slicec.C11.hash_reservation_bounded
+#print axioms Slicec.C11.vec_reservation_bounded
+#print axioms Slicec.C11.string_reservation_bounded
 #print axioms Slicec.C11.skip_fuel_sufficient
 #print axioms Slicec.C11.no_panic_sites
